@@ -511,7 +511,7 @@ func (c *Ctx) symStr(v ssa.Value, depth int) string {
 		if s, ok := c.singleCallArg(v, depth); ok {
 			return s
 		}
-		return "param:" + v.Name()
+		return paramRef(v)
 	case *ssa.Field:
 		return c.symStr(v.X, depth+1) + "." + fieldName(v.X.Type(), v.Field)
 	case *ssa.UnOp:
@@ -540,7 +540,7 @@ func (c *Ctx) symStr(v ssa.Value, depth int) string {
 			}
 			if len(stores) == 1 {
 				if p, ok := stores[0].(*ssa.Parameter); ok {
-					return "param:" + p.Name()
+					return paramRef(p)
 				}
 			}
 		}
@@ -598,7 +598,7 @@ func ruleDecode(c *Ctx) *RuleResult {
 			r.viol("quoted-identifier", pos, fname(fn), fmt.Sprintf("expected exactly one call of encoding/json.Unmarshal (whole-text decoder), found %d json calls %v", len(calls), callNames(calls)))
 		} else {
 			got := c.symStr(calls[0].Call.Args[0], 0)
-			want := `"\""+(*Lexer).consumeUntil(param:lexer,34)#0+"\""`
+			want := `"\""+(*Lexer).consumeUntil(param#0,34)#0+"\""`
 			if got == want {
 				r.ok("quoted-identifier", c.pos(calls[0].Pos()), fname(fn), "decoder input is "+got)
 			} else {
@@ -633,8 +633,8 @@ func ruleDecode(c *Ctx) *RuleResult {
 				got = c.symStr(st.Val, 0)
 			}
 		}
-		want := "strings.Replace((*Lexer).consumeUntil(param:lexer,96)#0,\"\\\\`\",\"`\",-1)"
-		alt := "strings.ReplaceAll((*Lexer).consumeUntil(param:lexer,96)#0,\"\\\\`\",\"`\")"
+		want := "strings.Replace((*Lexer).consumeUntil(param#0,96)#0,\"\\\\`\",\"`\",-1)"
+		alt := "strings.ReplaceAll((*Lexer).consumeUntil(param#0,96)#0,\"\\\\`\",\"`\")"
 		if got == want || got == alt {
 			r.ok("json-literal-text", pos, fname(fn), "token text is "+got)
 		} else {
@@ -670,7 +670,7 @@ func ruleDecode(c *Ctx) *RuleResult {
 						}
 					}
 				}
-				if got == "param:token.value" && dstOK {
+				if got == "param#1.value" && dstOK {
 					r.ok("json-literal-decode", c.pos(calls[0].Pos()), fname(fn), "literal payload = json.Unmarshal(token text) into an interface{}: same representation as a decoded document")
 				} else {
 					r.viol("json-literal-decode", c.pos(calls[0].Pos()), fname(fn), fmt.Sprintf("decoder input is %s (wanted the token text), destination-is-the-node-payload=%v", got, dstOK))
@@ -699,7 +699,7 @@ func ruleDecode(c *Ctx) *RuleResult {
 					}
 					n++
 					mi, ok := st.Val.(*ssa.MakeInterface)
-					if !ok || c.symStr(mi.X, 0) != "param:token.value" {
+					if !ok || c.symStr(mi.X, 0) != "param#1.value" {
 						okAll = false
 						detail = c.symStr(st.Val, 0)
 					}
@@ -854,7 +854,7 @@ func ruleRawString(c *Ctx) *RuleResult {
 					arg = c.symStr(in.Call.Args[1], 0)
 				}
 				key := fmt.Sprintf("write|%s#%d", shortCallee(nm), n)
-				if nm == "(*bytes.Buffer).WriteString" && (arg == `"'"` || strings.HasPrefix(arg, "param:lexer.expression[")) {
+				if nm == "(*bytes.Buffer).WriteString" && (arg == `"'"` || strings.HasPrefix(arg, "param#0.expression[")) {
 					r.ok(key, c.pos(in.Pos()), fname(fn), "writes "+arg)
 				} else {
 					r.viol(key, c.pos(in.Pos()), fname(fn), "writes "+arg+" with "+shortCallee(nm)+": only pieces of the expression and the unescaped quote may be emitted")
@@ -981,7 +981,7 @@ func ruleFieldName(c *Ctx) *RuleResult {
 	if fn == nil {
 		lost("fieldFromStruct not found")
 	}
-	want := "unicode.ToUpper(unicode/utf8.DecodeRuneInString(param:key)#0)+param:key[unicode/utf8.DecodeRuneInString(param:key)#1:]"
+	want := "unicode.ToUpper(unicode/utf8.DecodeRuneInString(param#1)#0)+param#1[unicode/utf8.DecodeRuneInString(param#1)#1:]"
 	n := 0
 	for _, f := range allFuncs(c.SLib) {
 		for _, b := range f.Blocks {
@@ -1456,4 +1456,17 @@ func ruleScratchBuffer(c *Ctx) *RuleResult {
 		}
 	}
 	return r
+}
+
+// paramRef renders a parameter by position (receiver first), not by name: a
+// renamed parameter is the same parameter.
+func paramRef(p *ssa.Parameter) string {
+	if fn := p.Parent(); fn != nil {
+		for i, q := range fn.Params {
+			if q == p {
+				return fmt.Sprintf("param#%d", i)
+			}
+		}
+	}
+	return "param:" + p.Name()
 }
